@@ -301,4 +301,48 @@ theorem price_rejected_on_every_route {σ : Type} :
   intro h _ hg p hp sem e s hoff
   exact C12.route_rejects sem _ 5 false e s (guarded_route hg p hp) (by decide) (by simp [GClass.ofCode, GClass.fails, hoff])
 
+/-! ## scope: every entry point that can write a position record (from the regenerated inventory `entryPoints`) -/
+
+/-- Message entry points that reach a setter / deleter of a vault, stable-mint vault, locker, lend or borrow record and are NOT
+breaker-guarded on every route — reviewed:
+* `auction.MsgPlaceDutchLendBid`, `auctionsV2.MsgPlaceMarketBid` — bids on a running auction of an ALREADY liquidated position; the
+  position record is written to settle the auction / return the remainder (starting auctions is what the sweeps' breaker test stops).
+* `lend.CalculateInterestAndRewards`, `vault.MsgVaultInterestCalc`, `locker.MsgLockerRewardCalc` — accrual only (nothing is opened,
+  enlarged or drawn).
+* `lend.FundReserveAccounts` — the signer funds the reserve; its tail `RemoveFaultyAuctions` (keeper.go:1619) un-locks borrows that
+  are stuck in faulty gen-1 lend auctions.
+* `liquidation.MsgLiquidateBorrow`, `liquidationsV2.MsgLiquidateInternalKeeper` — the breaker test sits inside the per-position
+  function (`sweeps` table: `LiquidateIndividualVault/Borrow`, action skip) and is exercised by the harness (`breaker_closed` is
+  not demanded of them by the text; `sweep_skips` is).
+* `locker.MsgWithdrawAsset`, `locker.MsgCloseLocker` — the reading of "draw from" (notes/C14.md): not guarded, recorded. -/
+def breakerUnguardedWriters : List String := [
+  "auction.MsgPlaceDutchLendBid", "auctionsV2.MsgPlaceMarketBid", "lend.CalculateInterestAndRewards", "lend.FundReserveAccounts",
+  "liquidation.MsgLiquidateBorrow", "liquidationsV2.MsgLiquidateInternalKeeper", "locker.MsgWithdrawAsset", "locker.MsgCloseLocker",
+  "locker.MsgLockerRewardCalc", "vault.MsgVaultInterestCalc"]
+
+/-- **every message of ANY module that can write a position record has the breaker guard on every route to success before its
+first write, or is on the reviewed list** — a new handler (or an existing one that starts writing positions) fails here -/
+theorem position_writers_breaker_guarded :
+    ∀ e ∈ entryPoints, e.kind = "msg" → e.posWrites = true →
+      (∃ h ∈ handlers, qname h = epName e ∧ guarded 3 true h = true) ∨ epName e ∈ breakerUnguardedWriters := by decide +kernel
+
+theorem breaker_unguarded_writers_tight :
+    ((entryPoints.filter fun e => e.kind == "msg" && e.posWrites &&
+        !(handlers.any fun h => qname h == epName e && guarded 3 true h)).map epName) = breakerUnguardedWriters := by decide +kernel
+
+/-- the expected breaker list is inside the set of position writers (the text's operations do write positions) -/
+theorem breaker_list_writes_positions :
+    ∀ q ∈ breakerRefused, ∃ e ∈ entryPoints, e.kind = "msg" ∧ epName e = q ∧ e.posWrites = true := by decide +kernel
+
+/-- position writers that are not messages: the two contract-only re-parametrisations (they accrue every vault / locker of the
+pair before changing its rates) and the block hooks; of the hooks only auctionsV2, esm and liquidationsV2 are wired
+(`C12.unwired_entry_points_pinned`), their control tests are the `sweeps` table, `Props/C14Snapshot` and the begin-block units -/
+theorem nonmsg_position_writers_pinned :
+    ((entryPoints.filter fun e => e.kind != "msg" && e.posWrites).map fun e => (e.kind, epName e, e.registered)) =
+      [("wasm", "wasm.MsgUpdatePairsVault", true), ("wasm", "wasm.MsgUpdateCollectorLookupTable", true),
+       ("blocker", "auction.BeginBlocker", false), ("blocker", "auctionsV2.BeginBlocker", true), ("blocker", "esm.BeginBlocker", true),
+       ("blocker", "liquidation.BeginBlocker", false), ("blocker", "liquidationsV2.BeginBlocker", true)] := by decide +kernel
+
+example : (entryPoints.filter fun e => e.kind == "msg" && e.posWrites).length = 34 := by decide +kernel
+
 end Comdex.C14
